@@ -4,6 +4,7 @@ import (
 	"fmt"
 	"os"
 	"reflect"
+	"sort"
 	"strings"
 	"testing"
 	"unicode/utf8"
@@ -152,6 +153,18 @@ func nodeSetKey(n *sbom.Node) string {
 		fmt.Fprintf(&b, "%d=%s;", fds.Get(i).Number(), hx.RefSetKey(n.ProtoReflect(), fds.Get(i), true))
 	}
 	return b.String()
+}
+
+// listSetKey is the node list's content with every list attribute of its nodes read as a set.
+func listSetKey(nl *sbom.NodeList) string {
+	var ks []string
+	for _, n := range nl.GetNodes() {
+		ks = append(ks, nodeSetKey(n))
+	}
+	sort.Strings(ks)
+	c := proto.Clone(nl).(*sbom.NodeList)
+	c.Nodes = nil
+	return strings.Join(ks, "|") + "#" + hx.RefKey(c, true)
 }
 
 func genC13Node(t *rapid.T, label string, text *rapid.Generator[string]) *sbom.Node {
@@ -310,7 +323,8 @@ func c13TripleProperty(t *rapid.T) {
 		t.Fatalf("Equal not transitive: %s = %s = %s", hx.RefKey(a, true), hx.RefKey(b, true), hx.RefKey(c, true))
 	}
 	ra, rb := hx.RefKey(a, true), hx.RefKey(b, true)
-	if ab != (ra == rb) {
+	// nodes that differ only by a repeated member of a list attribute may compare either way (set-valued)
+	if ab != (ra == rb) && nodeSetKey(a) != nodeSetKey(b) {
 		t.Fatalf("Equal=%v but reference equality=%v: %s / %s", ab, ra == rb, ra, rb)
 	}
 	if ab && bc {
@@ -404,7 +418,7 @@ func c13ListProperty(t *rapid.T) {
 	lf := ls[rapid.IntRange(0, len(ls)-1).Draw(t, "lleaf")]
 	lf.Apply(t)
 	hx.Class("mutated:list." + leafClass(lf.Path))
-	if hx.RefKey(m, true) != hx.RefKey(nl, true) {
+	if hx.RefKey(m, true) != hx.RefKey(nl, true) && listSetKey(m) != listSetKey(nl) {
 		if hx.NonTrivial(hx.Digest("list", hx.RefKey(nl, false), lf.Path, hx.RefKey(m, false))) {
 			hx.Sample(func() any { return map[string]string{"list": hx.DescribeNL(nl), "mutated_leaf": lf.Path} })
 		}
